@@ -12,14 +12,26 @@ CHECKS = {
          "torch 2.x / NumPy are trusted as the mirrored definition."),
  "C06": ("exploration", "3/C06", "bounded-exhaustive enumeration of nn configurations against torch.nn.functional and definitional loop nests",
          "torch.nn.functional trusted; definitional references cross-validated against it on every case torch accepts."),
+ "C03": ("model_checking", "3/C03", "exhaustive enumeration of all typed straight-line programs up to n op applications on the real engine against a forward-mode reference; invocation-count monitors; all construction orders",
+         "Program space bounded by n; leaf values fixed; forward-mode reference is independent of the engine's traversal."),
  "C04": ("model_checking", "3/C04", "explicit-state BFS over build/backward/retain/zero histories on real Parameters in lock-step with a forward-mode gradient ledger",
          "All histories up to the depth bound; contributions come from dual-number evaluation independent of the engine."),
  "C07": ("model_checking", "3/C07", "explicit-state BFS over context/tensor event histories on the real library in lock-step with a stack-machine model",
          "All histories up to the depth bound over a finite event alphabet; states merged on model + observable library state (audited unmerged in the thorough tier)."),
  "C08": ("model_checking", "3/C08", "exhaustive enumeration of all {backward,backward,zero_grad,step} histories x hyper-parameter lattice on the real optimizers in lock-step with the transcribed PyTorch rules and torch.optim",
          "torch.optim is the published rule; one documented point of specification nondeterminism (zero_grad-created gradients) is modelled as a set of admissible successors."),
+ "C09": ("exploration", "3/C09", "exhaustive sweep of the float32 domain |x| <= 1e4 (thorough: every bit pattern; quick: quantised + threshold neighbourhoods) and of all logit rows over a grid, against stable float64 closed forms",
+         "Closed forms validated against mpmath; accuracy criterion 16 eps32 max(1,|x|)."),
+ "C10": ("exploration", "3/C10", "bounded-exhaustive enumeration of both catalogues x operand dtype x upstream-gradient dtype; dtype/shape observation",
+         "All operands of a case share one dtype."),
+ "C11": ("exploration", "3/C11", "bounded-exhaustive enumeration of both catalogues x operand memory layouts (separate / arena views / overlapping views) with byte snapshots",
+         "History-dependent aliasing is decided in the C04 explorer."),
  "C12": ("model_checking", "3/C12", "explicit-state BFS over attribute-assignment/registration/mode histories on real Modules in lock-step with a registry model; all Sequentials of <= 3 layers",
          "Cycles excluded; two registration-order conventions accepted."),
+ "C13": ("model_checking", "3/C13", "exhaustive enumeration of all train/eval/forward histories x constructor options; Dropout branches over every random answer vector; BatchNorm in lock-step with torch.nn.BatchNorm",
+         "NumPy generator distribution trusted; torch.nn.BatchNorm is the documented rule."),
+ "C14": ("exploration", "3/C14", "bounded-exhaustive enumeration of the operand lattices of 16 identities; differential comparison of values and all basis gradients of both sides",
+         "Moderate logits for the sigmoid/BCE pair; log()'s 1e-12 guard kept below tolerance by the operand range."),
  "C15": ("exploration", "3/C15", "bounded-exhaustive enumeration of initialiser configurations under a scripted random source that recovers bounds/mean/std exactly",
          "NumPy's generator distribution is trusted; parameters handed to it and the in-place contract are decided."),
  "C16": ("exploration", "3/C16", "bounded-exhaustive enumeration of the 2-d geometry lattice; bitwise agreement of variants; adjointness by full operator matrices",
@@ -28,6 +40,10 @@ CHECKS = {
          "Depths up to 5 000 (quick) / 50 000 (thorough)."),
  "C18": ("exploration", "3/C18", "exhaustive enumeration of dataset lengths x fractions x every shuffle permutation (scripted) x batch sizes x transforms x label sequences against an arithmetic model",
          "All permutations for n <= 4/5; real seeded shuffles beyond."),
+ "C19": ("model_checking", "3/C19", "exhaustive enumeration of random-consuming programs x seeds, re-run in process and in fresh interpreters across PYTHONHASHSEED values and allocation layouts; scripted random source",
+         "Cross-machine reproducibility is out of reach."),
+ "C20": ("model_checking", "3/C20", "exhaustive enumeration of Trainer configurations; externally monitored call trace checked against the protocol automaton of the statement",
+         "Loaders with zero batches excluded; batch size 4."),
 }
 def main():
     checks = []
